@@ -38,8 +38,8 @@ Lemma tw_char3 : forall tk l nodes fr w a b n tk' nodes',
 Proof.
   intros tk l nodes fr w a b n tk' nodes' Ha Hb Hadd.
   destruct (char_word_class w a b Ha Hb) as (Hc & Hp & Hs & He & Ht & Hq & Hbs).
-  unfold SG, translate_word. proj_red. unfold handle_double. proj_red. rewrite Hc, Hp, Hs, He, Ht, Hq, Hbs.
-  proj_red. rewrite !andb_false_r. proj_red. rewrite Ha, Hb. unfold add_to_buf. proj_red.
+  unfold SG, translate_word. proj_red. unfold handle_double. proj_red. rewrite Hc, Hp, Hs, He, Ht, Hq.
+  proj_red. rewrite ?andb_false_r. proj_red. rewrite Ha, Hb. unfold add_to_buf. proj_red.
   rewrite Hadd. proj_red. reflexivity.
 Qed.
 
@@ -68,20 +68,38 @@ Proof.
   repeat match goal with |- context [if ?x then _ else _] => destruct x end; reflexivity.
 Qed.
 
+(* the first preamble address code of an EMPTY buffer resets the tracker first (fix #22): the unit below is stated for a
+   buffer that is not empty, or for a tracker that is already in its reset form (on which the reset is the identity) *)
+Definition pac_ready (tk : tracker) (nodes : list inode) : Prop := nodes <> [] \/ tracker_reset tk = tk.
+
+Lemma pac_ready_nonempty : forall tk pre n, pac_ready tk (pre ++ [n]).
+Proof. intros tk pre n. left. intros E. apply app_eq_nil in E. destruct E as [_ E]. discriminate. Qed.
+
+Lemma pac_ready_reset : forall ps dflt nodes, ps = [] -> pac_ready (mkTk ps None false dflt) nodes.
+Proof. intros ps dflt nodes ->. right. reflexivity. Qed.
+
+Lemma up_pac3 : forall tk nodes p pos, tab_of p = None -> pac_pos p = Some pos -> pac_ready tk nodes ->
+  update_positioning tk (mkCr nodes SNone) p = tracker_update tk pos.
+Proof.
+  intros tk nodes p pos Ht Hp [Hn|Hr].
+  - apply up_pac; assumption.
+  - rewrite (up_pac_gen _ _ _ _ Ht Hp). cbn [cr_nodes]. destruct nodes; [rewrite Hr|]; reflexivity.
+Qed.
+
 Lemma pac_unit_run3 : forall r d tk l nodes fr nx, basic_row r = true -> has_break_before nodes = false ->
-  last_contains l (pac_word (rw_row r) (pac_attr r)) = false ->
+  last_contains l (pac_word (rw_row r) (pac_attr r)) = false -> pac_ready tk nodes ->
   exists l', tws (SG tk l nodes fr) (pac_unit d r) nx
              = SG (tab_upd (rw_tab r) (tracker_update tk (rw_row r, rw_indent r))) l' nodes
                   (fr + Z.of_nat (length (pac_unit d r))).
 Proof.
-  intros r d tk l nodes fr nx Hrow Hbb Hl.
+  intros r d tk l nodes fr nx Hrow Hbb Hl Hrd.
   set (p := pac_word (rw_row r) (pac_attr r)) in *. set (t := tab_word (rw_tab r)).
   destruct (basic_row_facts r Hrow) as (_ & _ & _ & Hk & _).
   destruct (pac_row_facts r Hrow) as (Hp & Hpac & Ht & I). fold p in Hp, Hpac, Ht, I.
   assert (Spac : forall l0 fr0 n, last_contains l0 p = false ->
             translate_word (SG tk l0 nodes fr0) p n = SG (tracker_update tk (rw_row r, rw_indent r)) (LWord p) nodes (fr0 + 1)).
   { intros l0 fr0 n H0. rewrite (tw_interp3 tk l0 nodes fr0 p n (LWord p) I).
-    - rewrite (up_pac _ _ _ _ Ht Hp). reflexivity.
+    - rewrite (up_pac3 _ _ _ _ Ht Hp Hrd). reflexivity.
     - unfold SG. apply hd_pac; assumption. }
   assert (Sagain : forall tk0 l0 fr0 n, last_contains l0 p = true ->
             translate_word (SG tk0 l0 nodes fr0) p n = SG tk0 LNone nodes (fr0 + 1)).
@@ -286,17 +304,17 @@ Qed.
 
 (* ---- 4. one row ---------------------------------------------------------------------------------------------------- *)
 Lemma row_run3 : forall r d tk l nodes fr nx tk0 tk1 pre p, basic_row r = true -> has_break_before nodes = false ->
-  last_contains l (pac_word (rw_row r) (pac_attr r)) = false ->
+  last_contains l (pac_word (rw_row r) (pac_attr r)) = false -> pac_ready tk nodes ->
   tab_upd (rw_tab r) (tracker_update tk (rw_row r, rw_indent r)) = tk0 ->
   (forall s, add_chars tk0 (mkCr nodes SNone) s = (tk1, mkCr (pre ++ [mkI IText s p]) SNone)) ->
   (forall txt s, add_chars tk1 (mkCr (pre ++ [mkI IText txt p]) SNone) s = (tk1, mkCr (pre ++ [mkI IText (txt ++ s) p]) SNone)) ->
   exists l', tws (SG tk l nodes fr) (emit_row d r) nx
              = SG tk1 l' (pre ++ [mkI IText (row_text r) p]) (fr + Z.of_nat (length (emit_row d r))) /\ charlast l'.
 Proof.
-  intros r d tk l nodes fr nx tk0 tk1 pre p Hrow Hbb Hl Etk H0 H1.
+  intros r d tk l nodes fr nx tk0 tk1 pre p Hrow Hbb Hl Hrd Etk H0 H1.
   destruct (basic_row_facts r Hrow) as (_ & _ & _ & _ & Hf & Hb & _ & Hne & _).
   unfold emit_row. rewrite Hf, tws_app, app_length, Nat2Z.inj_add.
-  destruct (pac_unit_run3 r d tk l nodes fr (nxt (pack d (map TCh (row_text r)) None) nx) Hrow Hbb Hl) as (l1 & E1).
+  destruct (pac_unit_run3 r d tk l nodes fr (nxt (pack d (map TCh (row_text r)) None) nx) Hrow Hbb Hl Hrd) as (l1 & E1).
   rewrite E1, Etk.
   destruct (chars_run3 tk0 tk1 nodes pre p H0 H1 d nx (row_text r) l1 (fr + Z.of_nat (length (pac_unit d r))) Hb Hne)
     as (l2 & E2 & Hl2).
@@ -339,7 +357,7 @@ Proof.
                   (nxt (flat_map (emit_row d) t) nx)
                   (mkTk ((cur :: ps) ++ [(lastrow + 1, c0)]) (Some (rw_indent r)) false (lastrow + 1, rw_indent r + rw_tab r))
                   (mkTk ((cur :: ps) ++ [(lastrow + 1, c0)]) None false (lastrow + 1, rw_indent r + rw_tab r))
-                  (pre ++ [mkI IText txt cur; mkI IBreak [] cur]) cur Hrow Hbb Hlc) as (l1 & E1 & Hl1).
+                  (pre ++ [mkI IText txt cur; mkI IBreak [] cur]) cur Hrow Hbb Hlc (pac_ready_nonempty _ _ _)) as (l1 & E1 & Hl1).
       * rewrite Eadj. apply tracker_adj; [exact Hlast|lia].
       * intros s. apply add_chars_break.
       * intros txt0 s. apply add_chars_plain.
@@ -354,7 +372,8 @@ Proof.
       destruct (row_run3 r d (mkTk (cur :: ps) None false dflt) l (pre ++ [mkI IText txt cur]) fr
                   (nxt (flat_map (emit_row d) t) nx)
                   (mkTk [row_pos r] None true (row_pos r)) (mkTk [row_pos r] None false (row_pos r))
-                  (pre ++ [mkI IText txt cur; mkI IText [] (row_pos r); mkI IRepos [] (row_pos r)]) (row_pos r) Hrow Hbb Hlc)
+                  (pre ++ [mkI IText txt cur; mkI IText [] (row_pos r); mkI IRepos [] (row_pos r)]) (row_pos r) Hrow Hbb Hlc
+                  (pac_ready_nonempty _ _ _))
         as (l1 & E1 & Hl1).
       * unfold row_pos. apply (tracker_far _ lastrow c0); [exact Hlast|lia|exact Hne|exact Nadj].
       * intros s. apply add_chars_repos.
@@ -409,7 +428,7 @@ Lemma basic_load_parts : forall l, basic_load l = true ->
 Proof.
   intros l H. unfold basic_load in H. apply andb_true_iff in H. destruct H as [Hw Hb].
   destruct l as [|r t]; [discriminate Hw|]. exists r, t. unfold load_wf in Hw.
-  apply andb_true_iff in Hw. destruct Hw as [Hw _]. apply andb_true_iff in Hw. destruct Hw as [_ Hd].
+  apply andb_true_iff in Hw. destruct Hw as [_ Hd].
   rewrite forallb_cons in Hb. apply andb_true_iff in Hb. destruct Hb as [Hr Ht].
   split; [reflexivity|split; [exact Hr|split]].
   - apply Forall_forall. intros x Hx. exact (proj1 (forallb_forall _ _) Ht x Hx).
@@ -448,7 +467,7 @@ Proof.
   destruct (row_run3 stash0 ds0 creator0 creator0 None 0%Q tc off r d tracker0 l0 [] (if d then 4 else 2)
               (nxt (flat_map (emit_row d) rest ++ ctl d (ctrl_word 47)) nx)
               (mkTk [row_pos r] None false (row_pos r)) (mkTk [row_pos r] None false (row_pos r)) [] (row_pos r)
-              Hrow eq_refl Hc0) as (l1 & E1 & Hl1).
+              Hrow eq_refl Hc0 (or_intror eq_refl)) as (l1 & E1 & Hl1).
   { unfold tracker0, row_pos. apply tracker_new. lia. }
   { intros s. apply add_chars_first. }
   { intros txt s. apply (add_chars_plain (row_pos r) [] (row_pos r) []). }
@@ -567,10 +586,7 @@ Proof. intros l. plain_ind l; cbn; rewrite IH; reflexivity. Qed.
 Lemma strip_line_ends_id : forall l, Forall (fun n => rstrip_node n = n) l -> strip_line_ends l = l.
 Proof.
   induction l as [|n l IH]; intros F; [reflexivity|]. inversion F as [|? ? Hn F']; subst. specialize (IH F').
-  destruct l as [|m l'].
-  - cbn [strip_line_ends]. destruct (is_text n); [rewrite Hn|]; reflexivity.
-  - change (strip_line_ends (n :: m :: l')) with ((if is_text n && is_break m then rstrip_node n else n) :: strip_line_ends (m :: l')).
-    rewrite IH. destruct (is_text n && is_break m); [rewrite Hn|]; reflexivity.
+  cbn [strip_line_ends]. rewrite IH. destruct (is_text n && next_plain_is_sep l); [rewrite Hn|]; reflexivity.
 Qed.
 
 Lemma format_plain : forall l, plain_nodes l -> Forall (fun n => rstrip_node n = n) l -> format_italics l = skip_empty_text l.
